@@ -299,4 +299,962 @@ theorem diffSpecR_rng_ver {B : List Version} (hB : RegB B) (r : VRange) (v : Ver
           exact VRange.lt_top_of_reg hB r hrb v hvB hhi p hp
     · simp [h1] at h
 
+theorem diffSpecR_rng_rng {B : List Version} (hB : RegB B) (a b : VRange) (ha : a.WF) (hb : b.WF)
+    (hta : a.Tidy) (htb : b.Tidy) (hab : ∀ e ∈ a.bounds, e ∈ B) (hbb : ∀ e ∈ b.bounds, e ∈ B)
+    (d : VC) (h : RC.rngDifferenceRng a b = .ok d) : DiffSpecR B (.rng a) (.rng b) d := by
+  have hec : VRange.EndsConsistent a b := VRange.endsConsistent_of_reg a b ha hb (fun x y hx hy =>
+    hB.reg x (hbb x (VRange.mem_bounds_max hx)) y (hab y (VRange.mem_bounds_max hy)))
+  have base := diffSpec_rng_rng a b ha hb hta htb hec d h
+  refine DiffSpecR.of_base hB base hab hbb ?_ ?_
+  · rw [VRange.rngDifferenceRng_eq] at h
+    obtain ⟨any, hany⟩ := RC.allowsAny_ok (.rng a) (.rng b)
+    simp only [hany, bind, Except.bind] at h
+    cases any with
+    | false =>
+      simp only [Bool.not_false, if_true, pure, Except.pure, Except.ok.injEq] at h
+      subst h; intro c hc p hp; simp [VC.flatten] at hc; subst hc; exact hp
+    | true =>
+      simp only [Bool.not_true, Bool.false_eq_true, if_false] at h
+      simp only [RC.allowsAny, VRange.isStrictlyHigher, Except.ok.injEq, Bool.not_eq_true', Bool.or_eq_false_iff] at hany
+      obtain ⟨o1, e1, s1⟩ := VRange.beforePiece_spec a b ha hb hta
+      obtain ⟨o2, e2, s2⟩ := VRange.afterPiece_spec a b ha hb hta hec
+      simp only [e1, e2] at h
+      -- tops of the two kinds of pieces
+      have topX : ∀ x, o1 = some x → ∀ p, x.view.denHi p → a.denHi p := by
+        intro x hx p hp
+        subst hx
+        obtain ⟨hlow, hxs⟩ := VRange.beforePiece_some e1
+        obtain ⟨y, hy⟩ := VRange.allowsLower_none_right hlow
+        rcases hxs with ⟨m, hm, rfl⟩ | rfl
+        · -- the single version `a.min == b.min`
+          have hopt : optVerEq a.min b.min = true := by
+            unfold VRange.beforePiece at e1
+            simp only [hlow, Bool.not_true, Bool.false_eq_true, if_false] at e1
+            by_cases hq : optVerEq a.min b.min = true
+            · exact hq
+            · simp [hq] at e1
+          simp only [hm, hy, optVerEq, eqv_iff] at hopt
+          obtain ⟨_, f2⟩ := VRange.allowsLower_eq_flags hlow hm hy hopt
+          rw [RC.view_ver, VRange.denHi_point] at hp
+          rcases VRange.strictlyLower_false_cover hany.2 p with h1 | h1
+          · exact h1
+          · exfalso
+            simp only [VRange.denLo, hy, f2, Bool.false_eq_true, if_false] at h1
+            rw [← hopt] at h1
+            exact absurd (lt_of_lt_of_le h1 hp) (lt_irrefl _)
+        · exact VRange.top_before (c := ⟨a.min, b.min, a.imin, !b.imin⟩) hany.2 hy hy rfl p hp
+      have topY : ∀ y, o2 = some y → ∀ p, y.view.denHi p → a.denHi p := by
+        intro y hy p hp
+        subst hy
+        obtain ⟨hhigh, hys⟩ := VRange.afterPiece_some e2
+        obtain ⟨ywf, _⟩ := s2
+        rcases hys with ⟨M, hM, rfl⟩ | rfl
+        · obtain ⟨X, hX⟩ := VRange.allowsHigher_none_right hhigh
+          have hopt : optVerEq a.max b.max = true := by
+            unfold VRange.afterPiece at e2
+            simp only [hhigh, Bool.not_true, Bool.false_eq_true, if_false] at e2
+            by_cases hq : optVerEq a.max b.max = true
+            · exact hq
+            · simp [hq] at e2
+          simp only [hM, hX, optVerEq, eqv_iff] at hopt
+          have himax : a.imax = true := by
+            rcases hec hhigh X M hX hM with h1 | h1
+            · exact absurd hopt.symm (ne_of_lt h1)
+            · exact h1.2.1
+          have hA : a.allowedMax = some M := by
+            rcases VRange.allowedMax_cases hM with h' | h'
+            · exact h'
+            · rw [himax] at h'; simp at h'
+          rw [RC.view_ver, VRange.denHi_point] at hp
+          simpa [VRange.denHi, hA, himax] using hp
+        · exact (VRange.denHi_congr (r := ⟨b.max, a.max, !b.imax, a.imax⟩) (s := a) rfl rfl ywf.2.ne ha.2.ne p).1 hp
+      cases o1 with
+      | none =>
+        cases o2 with
+        | none =>
+          simp only [pure, Except.pure, Except.ok.injEq] at h
+          subst h; intro c hc; simp [VC.flatten] at hc
+        | some y =>
+          simp only [pure, Except.pure, Except.ok.injEq] at h
+          subst h; intro c hc p hp; simp [VC.flatten] at hc; subst hc; exact topY _ rfl p hp
+      | some x =>
+        cases o2 with
+        | none =>
+          simp only [pure, Except.pure, Except.ok.injEq] at h
+          subst h; intro c hc p hp; simp [VC.flatten] at hc; subst hc; exact topX _ rfl p hp
+        | some y =>
+          simp only at h
+          obtain ⟨xw, xt, xb, _, _⟩ := s1
+          obtain ⟨yw, yt, yb, _, _⟩ := s2
+          -- the two pieces are separated by `b`: `VersionUnion.of` keeps them as they are
+          obtain ⟨hlow, hxs⟩ := VRange.beforePiece_some e1
+          obtain ⟨hhigh, hys⟩ := VRange.afterPiece_some e2
+          obtain ⟨bm, hbm⟩ := VRange.allowsLower_none_right hlow
+          obtain ⟨bM, hbM⟩ := VRange.allowsHigher_none_right hhigh
+          have hbmM := hb.2 bm bM hbm hbM
+          have hxmax : ∃ X, x.view.max = some X ∧ vk X ≤ vk bm := by
+            rcases hxs with ⟨m, hm, rfl⟩ | rfl
+            · have hopt : optVerEq a.min b.min = true := by
+                unfold VRange.beforePiece at e1
+                simp only [hlow, Bool.not_true, Bool.false_eq_true, if_false] at e1
+                by_cases hq : optVerEq a.min b.min = true
+                · exact hq
+                · simp [hq] at e1
+              simp only [hm, hbm, optVerEq, eqv_iff] at hopt
+              exact ⟨m, by simp [RC.view, RC.max], le_of_eq hopt⟩
+            · exact ⟨bm, by simp [RC.view_rng, hbm], le_refl _⟩
+          have hymin : ∃ Y, y.view.min = some Y ∧ vk bM ≤ vk Y := by
+            rcases hys with ⟨M, hM, rfl⟩ | rfl
+            · have hopt : optVerEq a.max b.max = true := by
+                unfold VRange.afterPiece at e2
+                simp only [hhigh, Bool.not_true, Bool.false_eq_true, if_false] at e2
+                by_cases hq : optVerEq a.max b.max = true
+                · exact hq
+                · simp [hq] at e2
+              simp only [hM, hbM, optVerEq, eqv_iff] at hopt
+              exact ⟨M, by simp [RC.view, RC.min], le_of_eq hopt.symm⟩
+            · exact ⟨bM, by simp [RC.view_rng, hbM], le_refl _⟩
+          obtain ⟨X, hX1, hX2⟩ := hxmax
+          obtain ⟨Y, hY1, hY2⟩ := hymin
+          have hXY : vk X < vk Y := lt_of_le_of_lt hX2 (lt_of_lt_of_le hbmM hY2)
+          have hsl : x.view.isStrictlyLower y.view = true := VRange.sl_of_max_lt_min hX1 hY1 hXY
+          have hxB : ∀ e ∈ x.bounds, e ∈ B := fun e he => by
+            rcases xb e he with h' | h'
+            · exact hab e h'
+            · exact hbb e h'
+          have hyB : ∀ e ∈ y.bounds, e ∈ B := fun e he => by
+            rcases yb e he with h' | h'
+            · exact hab e h'
+            · exact hbb e h'
+          have hanyf : RC.allowsAny x y = .ok false := by
+            rw [RC.allowsAny_view hB x y xw yw hxB hyB]; simp [hsl]
+          have hadj : x.view.isAdjacentTo y.view = false := by
+            unfold VRange.isAdjacentTo
+            rw [hX1, hY1]
+            simp [optVerEq, (eqv_false_iff X Y).2 (ne_of_lt hXY)]
+          have hlt : RC.lt y x = false := by
+            have hxmin : ∀ m, x.view.min = some m → vk m < vk Y := by
+              intro m hm
+              have hmle : vk m ≤ vk X := by
+                -- the lower end of a well-formed member is at most its upper end
+                cases x with
+                | ver q => simp [RC.view, RC.min, RC.max] at hm hX1; subst hm; subst hX1; exact le_refl _
+                | rng q => exact le_of_lt (xw.2 m X hm hX1)
+              exact lt_of_le_of_lt hmle hXY
+            exact RC.lt_false_of_min_gt x y Y hY1 hxmin
+          have hnx : x.isAny = false := by
+            cases x with
+            | ver q => rfl
+            | rng q => simp [RC.isAny, VRange.isAny]; intro _; simp [RC.view_rng] at hX1; simp [hX1]
+          have hny : y.isAny = false := by
+            cases y with
+            | ver q => rfl
+            | rng q => simp [RC.isAny, VRange.isAny]; intro hq; simp [RC.view_rng] at hY1; simp [hY1] at hq
+          rw [unionOfFlat_pair_sep x y hlt hanyf hadj hnx hny] at h
+          cases h
+          intro c hc p hp
+          simp only [VC.flatten, List.mem_cons, List.mem_nil_iff, or_false] at hc
+          rcases hc with rfl | rfl
+          · exact topX _ rfl p hp
+          · exact topY _ rfl p hp
+  · -- a union result means both pieces exist, in particular `a` reaches higher than `b`
+    intro ds hd p hp
+    subst hd
+    rw [VRange.rngDifferenceRng_eq] at h
+    obtain ⟨any, hany⟩ := RC.allowsAny_ok (.rng a) (.rng b)
+    simp only [hany, bind, Except.bind] at h
+    cases any with
+    | false => simp [pure, Except.pure] at h
+    | true =>
+      simp only [Bool.not_true, Bool.false_eq_true, if_false] at h
+      obtain ⟨o1, e1, _⟩ := VRange.beforePiece_spec a b ha hb hta
+      obtain ⟨o2, e2, _⟩ := VRange.afterPiece_spec a b ha hb hta hec
+      simp only [e1, e2] at h
+      cases o2 with
+      | none => cases o1 <;> simp [pure, Except.pure] at h
+      | some y => exact VRange.allowsHigher_true (VRange.afterPiece_some e2).1 p hp
+
+/-- **the regular-setting specification of a member-level difference holds** -/
+theorem difference_specR {B : List Version} (hB : RegB B) (cur r : RC) (hc : RegMember B cur) (hr : RegMember B r)
+    (d : VC) (h : RC.difference cur r = .ok d) : DiffSpecR B cur r d := by
+  cases cur with
+  | ver a =>
+    simp only [RC.difference, Except.ok.injEq] at h
+    subst h
+    exact diffSpecR_ver hB a r hc.1 hr.1 (hc.2.2.2 a (by simp [RC.bounds_ver])) hr.2.2.2
+  | rng a =>
+    cases r with
+    | ver v =>
+      exact diffSpecR_rng_ver hB a v hc.1 hc.2.1 hr.1 hc.2.2.2 (hr.2.2.2 v (by simp [RC.bounds_ver])) d h
+    | rng b => exact diffSpecR_rng_rng hB a b hc.1 hr.1 hc.2.1 hr.2.1 hc.2.2.2 hr.2.2.2 d h
+
+/-! ### the merge walk of `VersionUnion.difference` -/
+
+/-- a collected piece: a single regular member -/
+def PieceOK (B : List Version) (q : VC) : Prop := ∃ c, q = .single c ∧ RegMember B c
+
+/-- the state of the walk -/
+structure DInv (B : List Version) (cur : RC) (ours : List RC) (their : RC) (theirs : List RC) (acc : List VC) : Prop where
+  hcur : RegMember B cur
+  hours : ∀ o ∈ ours, RegMember B o
+  htheir : RegMember B their
+  htheirs : ∀ t ∈ theirs, RegMember B t
+  sT : SortedRC (their :: theirs)
+  sO : SortedRC ours
+  below : ∀ o ∈ ours, ∀ p, ¬ (cur.view.denHi p ∧ o.view.denLo p)
+  accOK : ∀ q ∈ acc, PieceOK B q
+
+/-- what the walk computes: the pieces already collected, or (`cur` or a later member of ours) and no member of theirs -/
+def DSem (B : List Version) (parts : List VC) (acc : List VC) (cur : RC) (ours : List RC) (theirsAll : List RC) : Prop :=
+  ∀ p, p.wf = true → Regular B p →
+    (anyPart parts p ↔ (anyPart acc p ∨ ((cur.allows p = true ∨ anyAllows ours p = true) ∧ anyAllows theirsAll p = false)))
+
+theorem anyPart_append (l1 l2 : List VC) (p : Version) : anyPart (l1 ++ l2) p ↔ anyPart l1 p ∨ anyPart l2 p := by
+  simp only [anyPart, List.mem_append]
+  constructor
+  · rintro ⟨q, hq | hq, h⟩
+    · exact Or.inl ⟨q, hq, h⟩
+    · exact Or.inr ⟨q, hq, h⟩
+  · rintro (⟨q, hq, h⟩ | ⟨q, hq, h⟩)
+    · exact ⟨q, Or.inl hq, h⟩
+    · exact ⟨q, Or.inr hq, h⟩
+
+theorem anyPart_single (c : RC) (p : Version) : anyPart [.single c] p ↔ c.allows p = true := by
+  simp [anyPart, VC.allowsPlain, VC.flatten]
+
+theorem anyPart_map_single (l : List RC) (p : Version) : anyPart (l.map VC.single) p ↔ anyAllows l p = true := by
+  simp only [anyPart, anyAllows, List.any_eq_true, List.mem_map]
+  constructor
+  · rintro ⟨q, ⟨a, ha, rfl⟩, h⟩
+    exact ⟨a, ha, by simpa [VC.allowsPlain, VC.flatten] using h⟩
+  · rintro ⟨a, ha, h⟩
+    exact ⟨.single a, ⟨a, ha, rfl⟩, by simpa [VC.allowsPlain, VC.flatten] using h⟩
+
+theorem regular_of_member {B : List Version} {c : RC} (hc : RegMember B c) {p : Version} (h : Regular B p) :
+    Regular c.bounds p := h.mono hc.2.2.2
+
+theorem den_of_allows {B : List Version} {c : RC} (hc : RegMember B c) {p : Version} (hp : p.wf = true)
+    (h : Regular B p) (ha : c.allows p = true) : c.den p :=
+  (RC.allows_iff_den c p hc.1 hp (regular_of_member hc h)).1 ha
+
+/-- `cur` covers: every version is within its top or above its bottom -/
+theorem cover_of_member {B : List Version} {c : RC} (hc : RegMember B c) (p : Version) :
+    c.view.denHi p ∨ c.view.denLo p :=
+  VRange.strictlyLower_false_cover (RC.view_NE hc.2.2.1) p
+
+theorem dkey_union (A : Prop) (bx by' bc bt bo bts : Bool) (hxy : (bx || by') = (bc && !bt))
+    (hX : bx = true → bts = false) (hO : bt = true → bo = false) :
+    ((A ∨ bx = true) ∨ ((by' = true ∨ bo = true) ∧ bts = false)) ↔
+      (A ∨ ((bc = true ∨ bo = true) ∧ (bt || bts) = false)) := by
+  cases bx <;> cases by' <;> cases bc <;> cases bt <;> cases bo <;> cases bts <;> simp_all
+
+theorem dkey_their (A : Prop) (bc bt bo bts : Bool) (hO : bt = true → bo = false) :
+    (A ∨ (((bc && !bt) = true ∨ bo = true) ∧ bts = false)) ↔
+      (A ∨ ((bc = true ∨ bo = true) ∧ (bt || bts) = false)) := by
+  cases bc <;> cases bt <;> cases bo <;> cases bts <;> simp_all
+
+theorem dkey_our (A : Prop) (bc bt bo bts : Bool) (hTS : (bc && !bt) = true → bts = false) :
+    ((A ∨ (bc && !bt) = true) ∨ (bo = true ∧ (bt || bts) = false)) ↔
+      (A ∨ ((bc = true ∨ bo = true) ∧ (bt || bts) = false)) := by
+  cases bc <;> cases bt <;> cases bo <;> cases bts <;> simp_all
+
+theorem below_of_sorted {o : RC} {os : List RC} (h : SortedRC (o :: os)) :
+    ∀ o' ∈ os, ∀ p, ¬ (o.view.denHi p ∧ o'.view.denLo p) :=
+  fun o' ho' p => VRange.strictlyLower_true ((List.pairwise_cons.1 h).1 o' ho') p
+
+/-- **the merge walk of `VersionUnion.difference`** in the regular setting: with the model's fuel it returns;
+every collected piece is a single regular member; and the pieces admit a regular probe exactly when one already
+collected does, or (`cur` or a later member of ours) does and no member of theirs does. -/
+theorem unionDiffLoop_sem {B : List Version} (hB : RegB B) : ∀ (fuel : Nat) (cur : RC) (ours : List RC)
+    (their : RC) (theirs : List RC) (acc : List VC),
+    ours.length + theirs.length < fuel → DInv B cur ours their theirs acc →
+    ∃ parts, VC.unionDiffLoop fuel cur ours their theirs acc = .ok parts ∧ (∀ q ∈ parts, PieceOK B q) ∧
+      DSem B parts acc cur ours (their :: theirs)
+  | 0, _, _, _, _, _, hf, _ => by omega
+  | fuel + 1, cur, ours, their, theirs, acc, hf, inv => by
+    -- continuation 1: `their` is finished
+    have theirNext : ∀ (e : PyM (List VC)) (cur' : RC) (acc' : List VC),
+        (∀ t ts, theirs = t :: ts → e = VC.unionDiffLoop fuel cur' ours t ts acc') →
+        (theirs = [] → e = .ok (acc' ++ [.single cur'] ++ ours.map VC.single)) →
+        RegMember B cur' → (∀ o ∈ ours, ∀ p, ¬ (cur'.view.denHi p ∧ o.view.denLo p)) →
+        (∀ q ∈ acc', PieceOK B q) →
+        ∃ parts, e = .ok parts ∧ (∀ q ∈ parts, PieceOK B q) ∧ DSem B parts acc' cur' ours theirs := by
+      intro e cur' acc' h1 h2 hc' hb' ha'
+      cases hth : theirs with
+      | nil =>
+        refine ⟨_, h2 hth, ?_, ?_⟩
+        · intro q hq
+          simp only [List.mem_append, List.mem_singleton, List.mem_map] at hq
+          rcases hq with (hq | rfl) | ⟨o, ho, rfl⟩
+          · exact ha' q hq
+          · exact ⟨cur', rfl, hc'⟩
+          · exact ⟨o, rfl, inv.hours o ho⟩
+        · intro p _ _
+          rw [anyPart_append, anyPart_append, anyPart_single, anyPart_map_single]
+          simp [anyAllows, or_assoc]
+      | cons t ts =>
+        have hts : ∀ x ∈ ts, RegMember B x := fun x hx => inv.htheirs x (by rw [hth]; simp [hx])
+        have sT' : SortedRC (t :: ts) := by
+          have := (List.pairwise_cons.1 inv.sT).2; rw [hth] at this; exact this
+        obtain ⟨parts, p1, p2, p3⟩ := unionDiffLoop_sem hB fuel cur' ours t ts acc'
+          (by rw [hth] at hf; simp at hf ⊢; omega)
+          ⟨hc', inv.hours, inv.htheirs t (by rw [hth]; simp), hts, sT', inv.sO, hb', ha'⟩
+        exact ⟨parts, (h1 t ts hth).trans p1, p2, p3⟩
+    -- continuation 2: `cur` is finished
+    have ourNext : ∀ (e : PyM (List VC)) (acc'' : List VC),
+        (∀ o os, ours = o :: os → e = VC.unionDiffLoop fuel o os their theirs acc'') →
+        (ours = [] → e = .ok acc'') → (∀ q ∈ acc'', PieceOK B q) →
+        ∃ parts, e = .ok parts ∧ (∀ q ∈ parts, PieceOK B q) ∧
+          ∀ p, p.wf = true → Regular B p →
+            (anyPart parts p ↔ (anyPart acc'' p ∨ (anyAllows ours p = true ∧ anyAllows (their :: theirs) p = false))) := by
+      intro e acc'' h1 h2 ha'
+      cases hou : ours with
+      | nil => exact ⟨_, h2 hou, ha', fun p _ _ => by simp [anyAllows]⟩
+      | cons o os =>
+        have hos : ∀ x ∈ os, RegMember B x := fun x hx => inv.hours x (by rw [hou]; simp [hx])
+        have sO' : SortedRC (o :: os) := by have := inv.sO; rw [hou] at this; exact this
+        obtain ⟨parts, p1, p2, p3⟩ := unionDiffLoop_sem hB fuel o os their theirs acc''
+          (by rw [hou] at hf; simp at hf ⊢; omega)
+          ⟨inv.hours o (by rw [hou]; simp), hos, inv.htheir, inv.htheirs, inv.sT, (List.pairwise_cons.1 sO').2,
+            below_of_sorted sO', ha'⟩
+        refine ⟨parts, (h1 o os hou).trans p1, p2, fun p hp hreg => ?_⟩
+        rw [p3 p hp hreg, anyAllows_cons o os, Bool.or_eq_true]
+    -- facts about the current probe
+    have hcov := cover_of_member inv.hcur
+    -- no member of ours is met by `their` once `their`'s top is within `cur`'s top
+    have oursFree : ∀ p, p.wf = true → Regular B p → (their.view.denHi p → cur.view.denHi p) →
+        their.allows p = true → anyAllows ours p = false := by
+      intro p hp hreg htop htp
+      apply anyAllows_false_of_den (fun c hc => (inv.hours c hc).1) hp
+        (hreg.mono (fun e he => by
+          simp only [boundsOf, List.mem_flatMap] at he
+          obtain ⟨c, hc, hce⟩ := he
+          exact (inv.hours c hc).2.2.2 e hce))
+      intro o ho hd
+      exact inv.below o ho p ⟨htop (den_of_allows inv.htheir hp hreg htp).2, hd.1⟩
+    simp only [VC.unionDiffLoop, VRange.isStrictlyHigher]
+    by_cases hA : their.view.isStrictlyLower cur.view = true
+    · -- `their` lies entirely below `cur`
+      simp only [hA, if_true]
+      obtain ⟨parts, p1, p2, p3⟩ := theirNext (match theirs with | t :: ts => VC.unionDiffLoop fuel cur ours t ts acc | [] => .ok (acc ++ [.single cur] ++ ours.map VC.single)) cur acc (fun t ts h => by rw [h]) (fun h => by rw [h])
+        inv.hcur inv.below inv.accOK
+      refine ⟨parts, p1, p2, fun p hp hreg => ?_⟩
+      rw [p3 p hp hreg, anyAllows_cons their theirs]
+      have hT : (cur.allows p = true ∨ anyAllows ours p = true) → their.allows p = false := by
+        intro hco
+        cases htp : their.allows p
+        · rfl
+        · exfalso
+          have hdt := den_of_allows inv.htheir hp hreg htp
+          have hnl : ¬ cur.view.denLo p := fun h => VRange.strictlyLower_true hA p ⟨hdt.2, h⟩
+          rcases hco with hc | ho
+          · exact hnl (den_of_allows inv.hcur hp hreg hc).1
+          · have hch : cur.view.denHi p := by
+              rcases hcov p with h | h
+              · exact h
+              · exact absurd h hnl
+            have := oursFree p hp hreg (fun _ => hch) htp
+            rw [this] at ho; cases ho
+      constructor
+      · rintro (h | ⟨h1, h2⟩)
+        · exact Or.inl h
+        · exact Or.inr ⟨h1, by simp [hT h1, h2]⟩
+      · rintro (h | ⟨h1, h2⟩)
+        · exact Or.inl h
+        · exact Or.inr ⟨h1, by simp only [Bool.or_eq_false_iff] at h2; exact h2.2⟩
+    · simp only [hA, Bool.false_eq_true, if_false]
+      by_cases hBr : cur.view.isStrictlyLower their.view = true
+      · -- `cur` lies entirely below `their`: it is kept whole
+        simp only [hBr, if_true]
+        have hacc' : ∀ q ∈ acc ++ [VC.single cur], PieceOK B q := by
+          intro q hq
+          simp only [List.mem_append, List.mem_singleton] at hq
+          rcases hq with h | rfl
+          · exact inv.accOK q h
+          · exact ⟨cur, rfl, inv.hcur⟩
+        obtain ⟨parts, p1, p2, p3⟩ := ourNext (match ours with | o :: os => VC.unionDiffLoop fuel o os their theirs (acc ++ [.single cur]) | [] => .ok (acc ++ [.single cur])) (acc ++ [.single cur]) (fun o os h => by rw [h])
+          (fun h => by rw [h]) hacc'
+        refine ⟨parts, p1, p2, fun p hp hreg => ?_⟩
+        rw [p3 p hp hreg, anyPart_append, anyPart_single]
+        have hC : cur.allows p = true → anyAllows (their :: theirs) p = false := fun hc =>
+          all_higher (fun c hc' => by
+              simp only [List.mem_cons] at hc'
+              rcases hc' with rfl | hc'
+              · exact ⟨inv.htheir.1, inv.htheir.2.1, inv.htheir.2.2.1⟩
+              · exact ⟨(inv.htheirs c hc').1, (inv.htheirs c hc').2.1, (inv.htheirs c hc').2.2.1⟩)
+            inv.hcur.1 inv.sT hBr p hp
+            (hreg.mono (fun e he => by
+              simp only [boundsOf, List.mem_flatMap, List.mem_cons] at he
+              obtain ⟨c, hc', hce⟩ := he
+              rcases hc' with rfl | hc'
+              · exact inv.htheir.2.2.2 e hce
+              · exact (inv.htheirs c hc').2.2.2 e hce))
+            (regular_of_member inv.hcur hreg) hc
+        constructor
+        · rintro ((h | h) | ⟨h1, h2⟩)
+          · exact Or.inl h
+          · exact Or.inr ⟨Or.inl h, hC h⟩
+          · exact Or.inr ⟨Or.inr h1, h2⟩
+        · rintro (h | ⟨h1 | h1, h2⟩)
+          · exact Or.inl (Or.inl h)
+          · exact Or.inl (Or.inr h1)
+          · exact Or.inr ⟨h1, h2⟩
+      · simp only [hBr, Bool.false_eq_true, if_false, bind, Except.bind]
+        -- they overlap: subtract
+        obtain ⟨d, hd⟩ := difference_ok hB.reg hB.noloc cur their inv.hcur.1 inv.hcur.2.1 inv.htheir.1
+          inv.htheir.2.1 inv.hcur.2.2.2 inv.htheir.2.2.2
+        have spec := difference_specR hB cur their inv.hcur inv.htheir d hd
+        simp only [hd]
+        have hex : ∀ p, p.wf = true → Regular B p → d.allowsPlain p = (cur.allows p && !their.allows p) :=
+          fun p hp hreg => spec.base.exact p hp (hreg.mono (by
+            intro e he
+            simp only [List.mem_append] at he
+            rcases he with h | h
+            · exact inv.hcur.2.2.2 e h
+            · exact inv.htheir.2.2.2 e h))
+        have belowOf : ∀ c ∈ d.flatten, ∀ o ∈ ours, ∀ p, ¬ (c.view.denHi p ∧ o.view.denLo p) :=
+          fun c hc o ho p h => inv.below o ho p ⟨spec.top c hc p h.1, h.2⟩
+        have theirsFree : ∀ c, RegMember B c → ∀ p, p.wf = true → Regular B p →
+            (c.view.denHi p → their.view.denHi p) → c.allows p = true → anyAllows theirs p = false := by
+          intro c hc p hp hreg htop hcp
+          apply anyAllows_false_of_den (fun x hx => (inv.htheirs x hx).1) hp
+            (hreg.mono (fun e he => by
+              simp only [boundsOf, List.mem_flatMap] at he
+              obtain ⟨x, hx, hxe⟩ := he
+              exact (inv.htheirs x hx).2.2.2 e hxe))
+          intro t ht hdt
+          exact VRange.strictlyLower_true ((List.pairwise_cons.1 inv.sT).1 t ht) p
+            ⟨htop (den_of_allows hc hp hreg hcp).2, hdt.1⟩
+        cases d with
+        | empty =>
+          simp only
+          obtain ⟨parts, p1, p2, p3⟩ := ourNext (match ours with | o :: os => VC.unionDiffLoop fuel o os their theirs acc | [] => .ok acc) acc (fun o os h => by rw [h]) (fun h => by rw [h])
+            inv.accOK
+          refine ⟨parts, p1, p2, fun p hp hreg => ?_⟩
+          rw [p3 p hp hreg]
+          have h0 := hex p hp hreg
+          simp only [VC.allowsPlain, VC.flatten, List.any_nil] at h0
+          have hCT : cur.allows p = true → their.allows p = true := by
+            intro hc; cases ht : their.allows p
+            · simp [hc, ht] at h0
+            · rfl
+          constructor
+          · rintro (h | ⟨h1, h2⟩)
+            · exact Or.inl h
+            · exact Or.inr ⟨Or.inr h1, h2⟩
+          · rintro (h | ⟨h1 | h1, h2⟩)
+            · exact Or.inl h
+            · exfalso
+              rw [anyAllows_cons, hCT h1] at h2; simp at h2
+            · exact Or.inr ⟨h1, h2⟩
+        | single d' =>
+          have hd' := spec.mem d' (by simp [VC.flatten])
+          have hD : ∀ p, p.wf = true → Regular B p → d'.allows p = (cur.allows p && !their.allows p) := by
+            intro p hp hreg
+            have := hex p hp hreg
+            simpa [VC.allowsPlain, VC.flatten] using this
+          simp only
+          by_cases hh : d'.view.allowsHigher their.view = true
+          · simp only [hh, if_true]
+            obtain ⟨parts, p1, p2, p3⟩ := theirNext (match theirs with | t :: ts => VC.unionDiffLoop fuel d' ours t ts acc | [] => .ok (acc ++ [.single d'] ++ ours.map VC.single)) d' acc (fun t ts h => by rw [h]) (fun h => by rw [h])
+              hd' (belowOf d' (by simp [VC.flatten])) inv.accOK
+            refine ⟨parts, p1, p2, fun p hp hreg => ?_⟩
+            rw [p3 p hp hreg, anyAllows_cons their theirs, hD p hp hreg]
+            have hO : their.allows p = true → anyAllows ours p = false := fun ht =>
+              oursFree p hp hreg (fun h => spec.top d' (by simp [VC.flatten]) p (VRange.allowsHigher_true hh p h)) ht
+            exact dkey_their _ _ _ _ _ hO
+          · simp only [hh, Bool.false_eq_true, if_false]
+            simp only [Bool.not_eq_true] at hh
+            have hacc' : ∀ q ∈ acc ++ [VC.single d'], PieceOK B q := by
+              intro q hq
+              simp only [List.mem_append, List.mem_singleton] at hq
+              rcases hq with h | rfl
+              · exact inv.accOK q h
+              · exact ⟨d', rfl, hd'⟩
+            obtain ⟨parts, p1, p2, p3⟩ := ourNext (match ours with | o :: os => VC.unionDiffLoop fuel o os their theirs (acc ++ [.single d']) | [] => .ok (acc ++ [.single d'])) (acc ++ [.single d']) (fun o os h => by rw [h])
+              (fun h => by rw [h]) hacc'
+            refine ⟨parts, p1, p2, fun p hp hreg => ?_⟩
+            rw [p3 p hp hreg, anyPart_append, anyPart_single, anyAllows_cons their theirs, hD p hp hreg]
+            have hTS : d'.allows p = true → anyAllows theirs p = false := fun hdp =>
+              theirsFree d' hd' p hp hreg (VRange.allowsHigher_false hh p) hdp
+            rw [hD p hp hreg] at hTS
+            exact dkey_our _ _ _ _ _ hTS
+        | union ds =>
+          obtain ⟨x, y, hds, hxlow⟩ := spec.base.pair ds rfl
+          subst hds
+          have hx := spec.mem x (by simp [VC.flatten])
+          have hy := spec.mem y (by simp [VC.flatten])
+          simp only [List.length_cons, List.length_nil, bne_self_eq_false, Bool.false_eq_true, if_false]
+          have hacc' : ∀ q ∈ acc ++ [VC.single x], PieceOK B q := by
+            intro q hq
+            simp only [List.mem_append, List.mem_singleton] at hq
+            rcases hq with h | rfl
+            · exact inv.accOK q h
+            · exact ⟨x, rfl, hx⟩
+          obtain ⟨parts, p1, p2, p3⟩ := theirNext (match theirs with | t :: ts => VC.unionDiffLoop fuel y ours t ts (acc ++ [.single x]) | [] => .ok ((acc ++ [.single x]) ++ [.single y] ++ ours.map VC.single)) y (acc ++ [.single x]) (fun t ts h => by rw [h])
+            (fun h => by rw [h]) hy (belowOf y (by simp [VC.flatten])) hacc'
+          refine ⟨parts, p1, p2, fun p hp hreg => ?_⟩
+          rw [p3 p hp hreg, anyPart_append, anyPart_single, anyAllows_cons their theirs]
+          have hxy := hex p hp hreg
+          simp only [VC.allowsPlain, VC.flatten, List.any_cons, List.any_nil, Bool.or_false] at hxy
+          have hX : x.allows p = true → anyAllows theirs p = false := by
+            intro hxp
+            have hsem := (RC.allows_iff_sem x p hx.1.wfB hp (regular_of_member hx hreg)).1 hxp
+            exact below_disjoint (fun c hc => by
+                simp only [List.mem_cons] at hc
+                rcases hc with rfl | hc
+                · exact ⟨inv.htheir.1, inv.htheir.2.1, inv.htheir.2.2.1⟩
+                · exact ⟨(inv.htheirs c hc).1, (inv.htheirs c hc).2.1, (inv.htheirs c hc).2.2.1⟩)
+              inv.sT p hp (hreg.mono (fun e he => by
+                simp only [boundsOf, List.mem_flatMap] at he
+                obtain ⟨c, hc, hce⟩ := he
+                exact (inv.htheirs c hc).2.2.2 e hce)) (hxlow p hsem)
+          have hO : their.allows p = true → anyAllows ours p = false := fun ht =>
+            oursFree p hp hreg (spec.pairTop _ rfl p) ht
+          exact dkey_union _ _ _ _ _ _ _ hxy hX hO
+
+theorem RegB.mono {B B' : List Version} (h : RegB B) (hs : ∀ e ∈ B', e ∈ B) : RegB B' :=
+  ⟨fun x hx y hy => h.reg x (hs x hx) y (hs y hy), fun e he => h.noloc e (hs e he)⟩
+
+theorem RegMember.mono {B B' : List Version} {c : RC} (h : RegMember B c) (hs : ∀ e ∈ c.bounds, e ∈ B') :
+    RegMember B' c := ⟨h.1, h.2.1, h.2.2.1, hs⟩
+
+/-- **`union.difference(b)` in the regular setting**: defined; the result is a well-formed constraint over regular
+members (bounds among the operands'); and it admits a regular probe iff the union does and `b` does not. -/
+theorem union_difference_reg {B : List Version} (hB : RegB B) (rs : List RC) (b : VC)
+    (hwa : (VC.union rs).WF) (hwb : b.WF)
+    (ho : ∀ c ∈ rs, RegMember B c) (ht : ∀ c ∈ b.flatten, RegMember B c) :
+    ∃ res, VC.difference (.union rs) b = .ok res ∧ res.WF ∧ (∀ c ∈ res.flatten, RegMember B c) ∧
+      ∀ p, p.wf = true → Regular (boundsOf rs ++ boundsOf b.flatten) p →
+        res.allowsPlain p = (anyAllows rs p && !anyAllows b.flatten p) := by
+  -- work over the operands' own bounds
+  let B0 := boundsOf rs ++ boundsOf b.flatten
+  have hsub : ∀ e ∈ B0, e ∈ B := by
+    intro e he
+    simp only [B0, List.mem_append, boundsOf, List.mem_flatMap] at he
+    rcases he with ⟨c, hc, hce⟩ | ⟨c, hc, hce⟩
+    · exact (ho c hc).2.2.2 e hce
+    · exact (ht c hc).2.2.2 e hce
+  have hB0 : RegB B0 := hB.mono hsub
+  have ho0 : ∀ c ∈ rs, RegMember B0 c := fun c hc => (ho c hc).mono (fun e he =>
+    List.mem_append_left _ (mem_boundsOf hc he))
+  have ht0 : ∀ c ∈ b.flatten, RegMember B0 c := fun c hc => (ht c hc).mono (fun e he =>
+    List.mem_append_right _ (mem_boundsOf hc he))
+  have up : ∀ c, RegMember B0 c → RegMember B c := fun c h => h.mono (fun e he => hsub e (h.2.2.2 e he))
+  simp only [VC.difference]
+  by_cases hbe : b.isEmpty = true
+  · simp only [hbe, if_true]
+    have : b = .empty := by cases b <;> simp [VC.isEmpty] at hbe; rfl
+    subst this
+    exact ⟨_, rfl, hwa, ho, fun p _ _ => by simp [VC.allowsPlain, VC.flatten, anyAllows]⟩
+  · simp only [hbe, Bool.false_eq_true, if_false]
+    cases hrs : rs with
+    | nil => rw [hrs] at hwa; simp [VC.WF] at hwa
+    | cons cur ours =>
+      cases hbf : b.flatten with
+      | nil => cases b <;> simp [VC.flatten, VC.isEmpty] at hbf hbe; rw [hbf] at hwb; simp [VC.WF] at hwb
+      | cons their theirs =>
+        simp only
+        have hsO : SortedRC (cur :: ours) := by rw [← hrs]; exact hwa.2.2.1
+        have hsT : SortedRC (their :: theirs) := by rw [← hbf]; exact SortedRC_flatten_of_WF b hwb
+        have inv : DInv B0 cur ours their theirs [] :=
+          ⟨ho0 cur (by rw [hrs]; simp), fun o ho' => ho0 o (by rw [hrs]; simp [ho']),
+            ht0 their (by rw [hbf]; simp), fun t ht' => ht0 t (by rw [hbf]; simp [ht']),
+            hsT, (List.pairwise_cons.1 hsO).2, below_of_sorted hsO, by simp⟩
+        obtain ⟨parts, p1, p2, p3⟩ := unionDiffLoop_sem hB0 (ours.length + theirs.length + 2) cur ours their theirs []
+          (by omega) inv
+        simp only [p1, bind, Except.bind]
+        have hflat : ∀ c ∈ parts.flatMap VC.flatten, RegMember B0 c := by
+          intro c hc
+          obtain ⟨q, hq, hcq⟩ := List.mem_flatMap.1 hc
+          obtain ⟨c', rfl, hc'⟩ := p2 q hq
+          simp [VC.flatten] at hcq; subst hcq; exact hc'
+        have sem : ∀ p, p.wf = true → Regular B0 p →
+            (anyPart parts p ↔ (anyAllows rs p = true ∧ anyAllows b.flatten p = false)) := by
+          intro p hp hreg
+          rw [p3 p hp hreg, hrs, hbf, anyAllows_cons cur ours, Bool.or_eq_true]
+          simp [anyPart]
+        have fin : ∀ res : VC, (∀ p, p.wf = true → Regular B0 p → (res.allowsPlain p = true ↔ anyPart parts p)) →
+            ∀ p, p.wf = true → Regular (boundsOf (cur :: ours) ++ boundsOf (their :: theirs)) p →
+              res.allowsPlain p = (anyAllows (cur :: ours) p && !anyAllows (their :: theirs) p) := by
+          intro res hres p hp hreg'
+          have hreg : Regular B0 p := by simp only [B0, hrs, hbf]; exact hreg'
+          apply bool_eq_of_iff
+          rw [hres p hp hreg, sem p hp hreg, hrs, hbf, Bool.and_eq_true, Bool.not_eq_true']
+        cases parts with
+        | nil =>
+          refine ⟨.empty, rfl, trivial, by simp [VC.flatten], fin _ (fun p _ _ => by simp [VC.allowsPlain, VC.flatten, anyPart])⟩
+        | cons q qs =>
+          cases qs with
+          | nil =>
+            obtain ⟨c, rfl, hc⟩ := p2 q (by simp)
+            refine ⟨.single c, rfl, ⟨hc.1, hc.2.2.1⟩, fun x hx => by simp [VC.flatten] at hx; subst hx; exact up _ hc,
+              fin _ (fun p _ _ => by simp [anyPart, VC.allowsPlain, VC.flatten])⟩
+          | cons q2 qs2 =>
+            obtain ⟨res, hres, hwf, hmem, hex⟩ := unionOfFlat_reg hB0 ((q :: q2 :: qs2).flatMap VC.flatten) hflat
+            refine ⟨res, by simp only [VC.unionOf]; exact hres, hwf, fun c hc => up c (hmem c hc), fin res ?_⟩
+            intro p hp hreg
+            rw [hex p hp (hreg.mono (by
+              intro e he
+              simp only [boundsOf, List.mem_flatMap] at he
+              obtain ⟨c, hc, hce⟩ := he
+              exact (hflat c (List.mem_flatMap.2 hc)).2.2.2 e hce))]
+            simp only [anyAllows, anyPart, VC.allowsPlain, List.any_eq_true, List.mem_flatMap]
+            constructor
+            · rintro ⟨c, ⟨q', hq', hc⟩, hcp⟩; exact ⟨q', hq', c, hc, hcp⟩
+            · rintro ⟨q', hq', c, hc, hcp⟩; exact ⟨c, ⟨q', hq', hc⟩, hcp⟩
+
+/-! ### well-formedness of member-level differences, `range ∖ union`, and the general dispatch -/
+
+/-- a union returned by a member-level difference was made by `VersionUnion.of` from two pieces -/
+theorem difference_union_src (cur r : RC) (ds : List RC) (h : RC.difference cur r = .ok (.union ds)) :
+    ∃ x y, unionOfFlat [x, y] = .ok (.union ds) := by
+  cases cur with
+  | ver a =>
+    simp only [RC.difference, RC.verDifference, Except.ok.injEq] at h
+    split at h <;> cases h
+  | rng a =>
+    cases r with
+    | ver v =>
+      simp only [RC.difference, RC.rngDifferenceVer] at h
+      repeat' split at h
+      all_goals first | (cases h; done) | exact ⟨_, _, h⟩
+    | rng b =>
+      simp only [RC.difference] at h
+      rw [VRange.rngDifferenceRng_eq] at h
+      obtain ⟨any, hany⟩ := RC.allowsAny_ok (.rng a) (.rng b)
+      simp only [hany, bind, Except.bind] at h
+      cases any with
+      | false => simp [pure, Except.pure] at h
+      | true =>
+        simp only [Bool.not_true, Bool.false_eq_true, if_false] at h
+        cases e1 : VRange.beforePiece a b with
+        | error e => simp [e1] at h
+        | ok o1 =>
+          cases e2 : VRange.afterPiece a b with
+          | error e => simp [e1, e2] at h
+          | ok o2 =>
+            simp only [e1, e2] at h
+            cases o1 <;> cases o2 <;> simp [pure, Except.pure] at h
+            exact ⟨_, _, h⟩
+
+/-- when `VersionUnion.of(x, y)` answers with a union, it is the two members in sort order, found disjoint and
+not adjacent -/
+theorem unionOfFlat_pair_struct (x y : RC) (ds : List RC) (h : unionOfFlat [x, y] = .ok (.union ds)) :
+    ∃ s0 s1, ds = [s0, s1] ∧ RC.lt s1 s0 = false ∧ RC.allowsAny s0 s1 = .ok false ∧
+      s0.view.isAdjacentTo s1.view = false := by
+  have key : ∀ s0 s1 : RC, sortRCs [x, y] = [s0, s1] → RC.lt s1 s0 = false →
+      ∃ s0 s1, ds = [s0, s1] ∧ RC.lt s1 s0 = false ∧ RC.allowsAny s0 s1 = .ok false ∧
+        s0.view.isAdjacentTo s1.view = false := by
+    intro s0 s1 hs hlt
+    unfold unionOfFlat at h
+    simp only [List.isEmpty_cons, Bool.false_eq_true, if_false] at h
+    split at h
+    · simp [VC.any] at h
+    · rw [hs] at h
+      obtain ⟨any, hany⟩ := RC.allowsAny_ok s0 s1
+      simp only [bind, Except.bind] at h
+      by_cases hb : (!any && !s0.view.isAdjacentTo s1.view) = true
+      · have : mergeLoop [s0, s1] [] = .ok [s0, s1] := by simp [mergeLoop, hany, bind, Except.bind, hb]
+        rw [this] at h
+        simp only [pure, Except.pure, Except.ok.injEq, VC.union.injEq] at h
+        simp only [Bool.and_eq_true, Bool.not_eq_true'] at hb
+        exact ⟨s0, s1, h.symm, hlt, by rw [hany, hb.1], hb.2⟩
+      · cases hu : rcUnionSingle s0 s1 with
+        | error e =>
+          have : mergeLoop [s0, s1] [] = .error e := by simp [mergeLoop, hany, bind, Except.bind, hb, hu]
+          rw [this] at h; simp at h
+        | ok o =>
+          cases o with
+          | none =>
+            have : mergeLoop [s0, s1] [] = .error .recursion := by simp [mergeLoop, hany, bind, Except.bind, hb, hu]
+            rw [this] at h; simp at h
+          | some u =>
+            have : mergeLoop [s0, s1] [] = .ok [u] := by simp [mergeLoop, hany, bind, Except.bind, hb, hu]
+            rw [this] at h; simp [pure, Except.pure] at h
+  by_cases hlt : RC.lt y x = true
+  · exact key y x (by simp [sortRCs, insertSorted, hlt]) (RC.lt_asymm' hlt)
+  · exact key x y (by simp [sortRCs, insertSorted, hlt]) (by simpa using hlt)
+
+/-- **a member-level difference of regular members is a well-formed constraint** -/
+theorem difference_wfR {B : List Version} (hB : RegB B) (cur r : RC) (hc : RegMember B cur) (hr : RegMember B r)
+    (d : VC) (h : RC.difference cur r = .ok d) : d.WF := by
+  have spec := difference_specR hB cur r hc hr d h
+  cases d with
+  | empty => trivial
+  | single c => exact ⟨(spec.mem c (by simp [VC.flatten])).1, (spec.mem c (by simp [VC.flatten])).2.2.1⟩
+  | union ds =>
+    obtain ⟨x, y, hxy⟩ := difference_union_src cur r ds h
+    obtain ⟨s0, s1, hds, hlt, hany, hadj⟩ := unionOfFlat_pair_struct x y ds hxy
+    subst hds
+    have h0 := spec.mem s0 (by simp [VC.flatten])
+    have h1 := spec.mem s1 (by simp [VC.flatten])
+    have hview := RC.allowsAny_view hB s0 s1 h0.1 h1.1 h0.2.2.2 h1.2.2.2
+    rw [hany] at hview
+    simp only [Except.ok.injEq] at hview
+    have hmin : VRange.minLE s0.view s1.view := VRange.minLE_of_cmp (by
+      rw [← RC.lt_iff_cmp]; simp [hlt])
+    have hsl : s0.view.isStrictlyLower s1.view = true := by
+      have h10 := VRange.strict_of_lower_false (RC.view_NE h1.2.2.1) hmin
+      cases hq : s0.view.isStrictlyLower s1.view
+      · rw [h10, hq] at hview; simp at hview
+      · rfl
+    refine ⟨by simp, ?_, ?_, ⟨⟨hsl, hadj⟩, trivial⟩⟩
+    · intro c hc'
+      simp only [List.mem_cons, List.mem_nil_iff, or_false] at hc'
+      rcases hc' with rfl | rfl
+      · exact ⟨h0.1, h0.2.2.1⟩
+      · exact ⟨h1.1, h1.2.2.1⟩
+    · simp only [SortedRC, List.pairwise_cons, List.mem_singleton, forall_eq, List.not_mem_nil, false_implies,
+        implies_true, List.Pairwise.nil, and_true]
+      exact hsl
+
+theorem unionOfFlat_reg_of_ok {B : List Version} (hB : RegB B) (l : List RC) (hm : ∀ c ∈ l, RegMember B c)
+    (res : VC) (h : unionOfFlat l = .ok res) : res.WF ∧ ∀ c ∈ res.flatten, RegMember B c := by
+  obtain ⟨res', h1, h2, h3, _⟩ := unionOfFlat_reg hB l hm
+  rw [h] at h1; cases h1; exact ⟨h2, h3⟩
+
+theorem finish_wf {B : List Version} (hB : RegB B) (cur : RC) (ranges : List RC) (res : VC)
+    (h : VC.rngDiffFinish cur ranges = .ok res) (hc : RegMember B cur) (hg : ∀ c ∈ ranges, RegMember B c) :
+    res.WF ∧ ∀ c ∈ res.flatten, RegMember B c := by
+  unfold VC.rngDiffFinish at h
+  split at h
+  · cases h
+    exact ⟨⟨hc.1, hc.2.2.1⟩, fun c hc' => by simp [VC.flatten] at hc'; subst hc'; exact hc⟩
+  · exact unionOfFlat_reg_of_ok hB _ (by
+      intro c hc'
+      simp only [List.mem_append, List.mem_singleton] at hc'
+      rcases hc' with h1 | rfl
+      · exact hg c h1
+      · exact hc) res h
+
+/-- `range ∖ union` in the regular setting returns a well-formed constraint over regular members -/
+theorem rngDiffUnionLoop_wf {B : List Version} (hB : RegB B) : ∀ (rs : List RC) (cur : RC) (ranges : List RC) (res : VC),
+    VC.rngDiffUnionLoop rs cur ranges = .ok res → (∀ c ∈ rs, RegMember B c) → RegMember B cur →
+    (∀ c ∈ ranges, RegMember B c) → res.WF ∧ ∀ c ∈ res.flatten, RegMember B c
+  | [], cur, ranges, res, h, _, hc, hg => by
+    simp only [VC.rngDiffUnionLoop] at h
+    exact finish_wf hB cur ranges res h hc hg
+  | r :: rest, cur, ranges, res, h, hm, hc, hg => by
+    have hrest : ∀ c ∈ rest, RegMember B c := fun c hc' => hm c (by simp [hc'])
+    simp only [VC.rngDiffUnionLoop, VRange.isStrictlyHigher] at h
+    by_cases h1 : r.view.isStrictlyLower cur.view = true
+    · simp only [h1, if_true] at h
+      exact rngDiffUnionLoop_wf hB rest cur ranges res h hrest hc hg
+    · simp only [h1, Bool.false_eq_true, if_false] at h
+      by_cases h2 : cur.view.isStrictlyLower r.view = true
+      · simp only [h2, if_true] at h
+        exact finish_wf hB cur ranges res h hc hg
+      · simp only [h2, Bool.false_eq_true, if_false, bind, Except.bind] at h
+        cases hd : RC.difference cur r with
+        | error e => simp [hd] at h
+        | ok d =>
+          simp only [hd] at h
+          have spec := difference_specR hB cur r hc (hm r (by simp)) d hd
+          cases d with
+          | empty => exact unionOfFlat_reg_of_ok hB ranges hg res h
+          | single d' =>
+            exact rngDiffUnionLoop_wf hB rest d' ranges res h hrest (spec.mem d' (by simp [VC.flatten])) hg
+          | union ds =>
+            obtain ⟨x, y, hds, _⟩ := spec.base.pair ds rfl
+            subst hds
+            simp only [List.head?_cons, List.getLast?_cons_cons, List.getLast?_singleton] at h
+            exact rngDiffUnionLoop_wf hB rest y (ranges ++ [x]) res h hrest (spec.mem y (by simp [VC.flatten]))
+              (by
+                intro c hc'
+                simp only [List.mem_append, List.mem_singleton] at hc'
+                rcases hc' with h' | rfl
+                · exact hg c h'
+                · exact spec.mem _ (by simp [VC.flatten]))
+
+theorem anyAllows_congr {B : List Version} (l : List RC) (hl : ∀ c ∈ l, RegMember B c) {p v : Version}
+    (hp : p.wf = true) (hv : v.wf = true) (hreg : Regular (boundsOf l) p) (h : vk p = vk v) :
+    anyAllows l p = anyAllows l v := by
+  unfold anyAllows
+  induction l with
+  | nil => rfl
+  | cons c cs ih =>
+    simp only [List.any_cons]
+    rw [RC.allows_congr c (hl c (by simp)).1 hp hv (hreg.mono (fun e he => mem_boundsOf (by simp) he)) h,
+      ih (fun x hx => hl x (by simp [hx])) (hreg.mono (fun e he => by
+        simp only [boundsOf, List.flatMap_cons, List.mem_append] at he ⊢; exact Or.inr he))]
+
+/-- **`a.difference(b)` for any two well-formed constraints over regular members**: defined, the result is again a
+well-formed constraint over regular members, and it admits a regular probe iff `a` does and `b` does not -/
+theorem VC.difference_reg {B : List Version} (hB : RegB B) (a b : VC) (ha : a.WF) (hb : b.WF)
+    (hma : ∀ c ∈ a.flatten, RegMember B c) (hmb : ∀ c ∈ b.flatten, RegMember B c) :
+    ∃ res, VC.difference a b = .ok res ∧ res.WF ∧ (∀ c ∈ res.flatten, RegMember B c) ∧
+      ∀ p, p.wf = true → Regular (boundsOf a.flatten ++ boundsOf b.flatten) p →
+        res.allowsPlain p = (a.allowsPlain p && !b.allowsPlain p) := by
+  cases a with
+  | empty =>
+    exact ⟨.empty, rfl, trivial, by simp [VC.flatten], fun p _ _ => by simp [VC.allowsPlain, VC.flatten]⟩
+  | union rs => exact union_difference_reg hB rs b ha hb hma hmb
+  | single x =>
+    have hx := hma x (by simp [VC.flatten])
+    cases x with
+    | ver v =>
+      have hball := VC.allows_of_reg hB b hb hmb v
+      simp only [VC.difference, hball, bind, Except.bind, pure, Except.pure]
+      have hvwf : v.wf = true := hx.1
+      have key : ∀ p, p.wf = true → Regular (boundsOf (VC.single (.ver v)).flatten ++ boundsOf b.flatten) p →
+          v.allows p = true → b.allowsPlain p = b.allowsPlain v := by
+        intro p hp hreg hvp
+        have hpv := (RC.ver_allows_iff v p hvwf hp (hreg.reg1 (by simp [boundsOf, VC.flatten, RC.bounds_ver]))).1 hvp
+        exact anyAllows_congr b.flatten hmb hp hvwf hreg.append_right hpv
+      cases hbv : b.allowsPlain v
+      · refine ⟨.single (.ver v), by simp, ⟨hx.1, trivial⟩, fun c hc => by simp [VC.flatten] at hc; subst hc; exact hx,
+          fun p hp hreg => ?_⟩
+        have hs1 : (VC.single (RC.ver v)).allowsPlain p = v.allows p := by simp [VC.allowsPlain, VC.flatten, RC.allows]
+        rw [hs1]
+        cases hvp : v.allows p
+        · simp
+        · rw [key p hp hreg hvp, hbv]; rfl
+      · refine ⟨.empty, by simp, trivial, by simp [VC.flatten], fun p hp hreg => ?_⟩
+        have hs1 : (VC.single (RC.ver v)).allowsPlain p = v.allows p := by simp [VC.allowsPlain, VC.flatten, RC.allows]
+        have hs0 : VC.empty.allowsPlain p = false := by simp [VC.allowsPlain, VC.flatten]
+        rw [hs1, hs0]
+        cases hvp : v.allows p
+        · simp
+        · rw [key p hp hreg hvp, hbv]; rfl
+    | rng r =>
+      cases b with
+      | empty =>
+        exact ⟨.single (.rng r), rfl, ha, hma, fun p _ _ => by simp [VC.allowsPlain, VC.flatten]⟩
+      | single c =>
+        have hc := hmb c (by simp [VC.flatten])
+        obtain ⟨d, hd⟩ := difference_ok hB.reg hB.noloc (.rng r) c hx.1 hx.2.1 hc.1 hc.2.1 hx.2.2.2 hc.2.2.2
+        have spec := difference_specR hB (.rng r) c hx hc d hd
+        refine ⟨d, hd, difference_wfR hB _ _ hx hc d hd, spec.mem, fun p hp hreg => ?_⟩
+        rw [spec.base.exact p hp (hreg.mono (by intro e he; simpa [boundsOf, VC.flatten] using he))]
+        simp [VC.allowsPlain, VC.flatten]
+      | union ts =>
+        -- over the operands' own bounds
+        let B0 := boundsOf ts ++ r.bounds
+        have hsub : ∀ e ∈ B0, e ∈ B := by
+          intro e he
+          simp only [B0, List.mem_append, boundsOf, List.mem_flatMap] at he
+          rcases he with ⟨c, hc, hce⟩ | he
+          · exact (hmb c hc).2.2.2 e hce
+          · exact hx.2.2.2 e he
+        have hB0 : RegB B0 := hB.mono hsub
+        have hts0 : ∀ c ∈ ts, UMember c := fun c hc => ⟨(hmb c hc).1, (hmb c hc).2.1, (hmb c hc).2.2.1⟩
+        have hall : ∀ e, (e ∈ boundsOf ts ∨ e ∈ (RC.rng r).bounds ∨ e ∈ boundsOf ([] : List RC)) → e ∈ B0 := by
+          intro e he
+          simp only [B0, List.mem_append]
+          rcases he with h' | h' | h'
+          · exact Or.inl h'
+          · exact Or.inr h'
+          · simp [boundsOf] at h'
+        obtain ⟨res, hres⟩ := rngDiffUnionLoop_total B0 hB0.reg hB0.noloc ts (.rng r) [] hts0 hx.1 hx.2.1
+          (by simp [Good]) hall
+        obtain ⟨_, _, g3⟩ := rngDiffUnionLoop_sem B0 hB0.reg ts (.rng r) [] res hres hts0 hb.2.2.1 hx.1 hx.2.1
+          (by simp [Good]) hall
+        obtain ⟨w1, w2⟩ := rngDiffUnionLoop_wf hB ts (.rng r) [] res hres hmb hx (by simp)
+        refine ⟨res, hres, w1, w2, fun p hp hreg => ?_⟩
+        rw [g3 p hp (hreg.mono (by
+          intro e he
+          simp only [B0, List.mem_append] at he
+          simp only [List.mem_append, boundsOf, VC.flatten, List.flatMap_cons, List.flatMap_nil, List.append_nil]
+          rcases he with h' | h'
+          · exact Or.inr h'
+          · exact Or.inl h'))]
+        simp [anyAllows, VC.allowsPlain, VC.flatten]
+
+/-! ### union, general dispatch -/
+
+theorem unionOf_reg {B : List Version} (hB : RegB B) (cs : List VC) (hm : ∀ c ∈ cs, ∀ x ∈ c.flatten, RegMember B x) :
+    ∃ res, VC.unionOf cs = .ok res ∧ res.WF ∧ (∀ c ∈ res.flatten, RegMember B c) ∧
+      ∀ p, p.wf = true → Regular (boundsOf (cs.flatMap VC.flatten)) p →
+        res.allowsPlain p = anyAllows (cs.flatMap VC.flatten) p :=
+  unionOfFlat_reg hB _ (fun x hx => by
+    obtain ⟨c, hc, hxc⟩ := List.mem_flatMap.1 hx
+    exact hm c hc x hxc)
+
+theorem RC.union_reg {B : List Version} (hB : RegB B) (x y : RC) (hx : RegMember B x) (hy : RegMember B y) :
+    ∃ res, RC.union x y = .ok res ∧ res.WF ∧ (∀ c ∈ res.flatten, RegMember B c) ∧
+      ∀ p, p.wf = true → Regular (x.bounds ++ y.bounds) p → res.allowsPlain p = (x.allows p || y.allows p) := by
+  unfold RC.union
+  obtain ⟨o, ho⟩ := rcUnionSingle_ok x y
+  simp only [ho, bind, Except.bind]
+  cases o with
+  | some u =>
+    obtain ⟨uw, ut, ub, uex⟩ := RC.rcUnionSingle_exact x y hx.1 hy.1 hx.2.1 hy.2.1 u ho
+    have hu : RegMember B u := regMember_of_good hB u uw ut (fun e he => by
+      rcases ub e he with h | h
+      · exact hx.2.2.2 e h
+      · exact hy.2.2.2 e h)
+    exact ⟨.single u, rfl, ⟨hu.1, hu.2.2.1⟩, fun c hc => by simp [VC.flatten] at hc; subst hc; exact hu,
+      fun p hp hreg => by simpa [VC.allowsPlain, VC.flatten] using uex p hp hreg⟩
+  | none =>
+    obtain ⟨res, h1, h2, h3, h4⟩ := unionOfFlat_reg hB [x, y] (by
+      intro c hc
+      simp only [List.mem_cons, List.mem_nil_iff, or_false] at hc
+      rcases hc with rfl | rfl
+      · exact hx
+      · exact hy)
+    refine ⟨res, h1, h2, h3, fun p hp hreg => ?_⟩
+    rw [h4 p hp (hreg.mono (by intro e he; simpa [boundsOf] using he))]
+    simp [anyAllows]
+
+/-- **`a.union(b)` for any two well-formed constraints over regular members**: defined, the result is again a
+well-formed constraint over regular members, and it admits a regular probe iff `a` or `b` does -/
+theorem VC.unionWith_reg {B : List Version} (hB : RegB B) (a b : VC) (ha : a.WF) (hb : b.WF)
+    (hma : ∀ c ∈ a.flatten, RegMember B c) (hmb : ∀ c ∈ b.flatten, RegMember B c) :
+    ∃ res, VC.unionWith a b = .ok res ∧ res.WF ∧ (∀ c ∈ res.flatten, RegMember B c) ∧
+      ∀ p, p.wf = true → Regular (boundsOf a.flatten ++ boundsOf b.flatten) p →
+        res.allowsPlain p = (a.allowsPlain p || b.allowsPlain p) := by
+  -- the generic path: `VersionUnion.of(a, b)`
+  have viaOf : ∃ res, VC.unionOf [a, b] = .ok res ∧ res.WF ∧ (∀ c ∈ res.flatten, RegMember B c) ∧
+      ∀ p, p.wf = true → Regular (boundsOf a.flatten ++ boundsOf b.flatten) p →
+        res.allowsPlain p = (a.allowsPlain p || b.allowsPlain p) := by
+    obtain ⟨res, h1, h2, h3, h4⟩ := unionOf_reg hB [a, b] (by
+      intro c hc
+      simp only [List.mem_cons, List.mem_nil_iff, or_false] at hc
+      rcases hc with rfl | rfl
+      · exact hma
+      · exact hmb)
+    refine ⟨res, h1, h2, h3, fun p hp hreg => ?_⟩
+    rw [h4 p hp (hreg.mono (by intro e he; simpa [boundsOf, List.flatMap_append] using he))]
+    simp [anyAllows, VC.allowsPlain, List.any_append]
+  cases a with
+  | empty =>
+    exact ⟨b, rfl, hb, hmb, fun p _ _ => by simp [VC.allowsPlain, VC.flatten]⟩
+  | union rs => exact viaOf
+  | single x =>
+    have hx := hma x (by simp [VC.flatten])
+    have viaRC : ∀ c, b = .single c → ∃ res, RC.union x c = .ok res ∧ res.WF ∧ (∀ c' ∈ res.flatten, RegMember B c') ∧
+        ∀ p, p.wf = true → Regular (boundsOf (VC.single x).flatten ++ boundsOf b.flatten) p →
+          res.allowsPlain p = ((VC.single x).allowsPlain p || b.allowsPlain p) := by
+      intro c hc
+      subst hc
+      obtain ⟨res, h1, h2, h3, h4⟩ := RC.union_reg hB x c hx (hmb c (by simp [VC.flatten]))
+      refine ⟨res, h1, h2, h3, fun p hp hreg => ?_⟩
+      rw [h4 p hp (hreg.mono (by intro e he; simpa [boundsOf, VC.flatten] using he))]
+      simp [VC.allowsPlain, VC.flatten]
+    cases x with
+    | rng r =>
+      cases b with
+      | single c => exact viaRC c rfl
+      | empty => exact viaOf
+      | union ts => exact viaOf
+    | ver v =>
+      have hball := VC.allows_of_reg hB b hb hmb v
+      simp only [VC.unionWith, hball, bind, Except.bind, pure, Except.pure]
+      cases hbv : b.allowsPlain v
+      · simp only [Bool.false_eq_true, if_false]
+        cases b with
+        | single c => exact viaRC c rfl
+        | empty => exact viaOf
+        | union ts => exact viaOf
+      · simp only [if_true]
+        refine ⟨b, rfl, hb, hmb, fun p hp hreg => ?_⟩
+        have hs1 : (VC.single (RC.ver v)).allowsPlain p = v.allows p := by simp [VC.allowsPlain, VC.flatten, RC.allows]
+        rw [hs1]
+        cases hvp : v.allows p
+        · simp
+        · have hpv := (RC.ver_allows_iff v p hx.1 hp (hreg.reg1 (by simp [boundsOf, VC.flatten, RC.bounds_ver]))).1 hvp
+          have : b.allowsPlain p = b.allowsPlain v := anyAllows_congr b.flatten hmb hp hx.1 hreg.append_right hpv
+          rw [this, hbv]; rfl
+
 end Poetry
